@@ -11,6 +11,9 @@ use std::collections::HashMap;
 use std::io::{BufRead, BufWriter, Write};
 
 fn run_dispatch(prog: &Value, strat: Strat) -> interp::RunResult {
+    if prog.get("mutex").and_then(|x| x.as_bool()).unwrap_or(false) {
+        return interp::run_mutex(prog, strat);
+    }
     match prog.get("payload").and_then(|x| x.as_str()).unwrap_or("w1") {
         "w1" => interp::run::<W1>(prog, strat),
         "h4" => interp::run::<H4>(prog, strat),
@@ -52,6 +55,7 @@ fn strat_from(v: &Value, seed: u64) -> Strat {
 
 struct Emit {
     ids: HashMap<usize, usize>,
+    next: usize,
 }
 
 fn kind_name(k: u32) -> &'static str {
@@ -95,6 +99,8 @@ fn kind_name(k: u32) -> &'static str {
         sched::H_TICK => "tick",
         sched::H_POINT => "point",
         sched::H_BARRIER => "barrier",
+        sched::H_FUTDEAD => "fut_dead",
+        sched::H_FUTBORN => "fut_born",
         _ => "other",
     }
 }
@@ -104,32 +110,36 @@ impl Emit {
         if a == 0 {
             return 0;
         }
-        let n = self.ids.len() + 1;
+        self.next += 1;
+        let n = self.next;
         *self.ids.entry(a).or_insert(n)
     }
 }
 
-fn owner(a: usize, out: &sched::Outcome) -> i64 {
+/// (owner process, kind: 0 thread stack / 1 harness-allocated future / 2 learned from a FIELD_WRITE, region index)
+fn owner3(a: usize, out: &sched::Outcome) -> (i64, i64, i64) {
     if a == 0 {
-        return -1;
+        return (-1, -1, -1);
+    }
+    for (k, (addr, size, p, f)) in out.regions.iter().enumerate().rev() {
+        if *f != 99 && a >= *addr && a < addr + size {
+            return (*p as i64, 1, k as i64);
+        }
     }
     for (i, (lo, hi)) in out.stacks.iter().enumerate() {
         if a >= *lo && a < *hi {
-            return i as i64;
+            return (i as i64, 0, -1);
         }
     }
-    // exact regions (harness-allocated futures) first, then regions learned from FIELD_WRITE events
-    for (addr, size, p, f) in out.regions.iter().rev() {
-        if *f != 99 && a >= *addr && a < addr + size {
-            return *p as i64;
-        }
-    }
-    for (addr, size, p, f) in out.regions.iter().rev() {
+    for (k, (addr, size, p, f)) in out.regions.iter().enumerate().rev() {
         if *f == 99 && a >= *addr && a < addr + size {
-            return *p as i64;
+            return (*p as i64, 2, k as i64);
         }
     }
-    -1
+    (-1, -1, -1)
+}
+fn owner(a: usize, out: &sched::Outcome) -> i64 {
+    owner3(a, out).0
 }
 
 fn peek_json(p: &sched::PeekLite, out: &sched::Outcome) -> String {
@@ -146,6 +156,12 @@ fn tnum(t: usize) -> i64 {
 }
 
 fn write_raw(w: &mut impl Write, x: usize, e: &Ev, em: &mut Emit, out: &sched::Outcome) {
+    if e.kind == sched::H_FUTBORN {
+        // fresh memory: whatever lived at these addresses before is a different object
+        let (lo, hi) = (e.addr, e.addr + e.a as usize);
+        em.ids.retain(|a, _| *a < lo || *a >= hi);
+        em.next += 1000;
+    }
     let mut s = format!("{{\"x\":{},\"t\":{},\"k\":\"{}\",\"now\":{}", x, tnum(e.t), kind_name(e.kind), e.now / sched::TICK);
     if matches!(e.kind, sched::H_BEGIN | sched::H_END) {
         if let Some(x) = &e.extra {
@@ -154,8 +170,8 @@ fn write_raw(w: &mut impl Write, x: usize, e: &Ev, em: &mut Emit, out: &sched::O
         }
     } else {
         let ad = em.aid(e.addr);
-        let own = owner(e.addr, out);
-        s.push_str(&format!(",\"ad\":{},\"own\":{},\"a\":{},\"b\":{},\"r\":{},\"r2\":{}", ad, own, e.a, e.b, e.r, e.r2));
+        let (own, ok, rg) = owner3(e.addr, out);
+        s.push_str(&format!(",\"ad\":{},\"own\":{},\"ok\":{},\"rg\":{},\"a\":{},\"b\":{},\"r\":{},\"r2\":{}", ad, own, ok, rg, e.a, e.b, e.r, e.r2));
         if e.kind == kv::PTR_COPY {
             let src = em.aid(e.a as usize);
             s.push_str(&format!(",\"src\":{},\"srcown\":{}", src, owner(e.a as usize, out)));
@@ -266,7 +282,7 @@ fn main() {
                         writeln!(h, "{{\"e\":\"Z\",\"x\":{},\"stuck\":{},\"budget\":{},\"stuck_threads\":[{}],\"stuck_ops\":[{}],\"t\":0}}", x, out.stuck, out.over_budget, st.join(","), so.join(",")).unwrap();
                     }
                     if let Some(r) = raw.as_mut() {
-                        let mut em = Emit { ids: HashMap::new() };
+                        let mut em = Emit { ids: HashMap::new(), next: 0 };
                         let cnt = |c: char| -> usize {
                             prog["procs"].as_array().map(|a| a.iter().map(|p| p["handles"].as_array().map(|h| h.iter().filter(|x| x.as_str().unwrap_or("").ends_with(c)).count()).unwrap_or(0)).sum()).unwrap_or(0)
                         };
